@@ -21,13 +21,15 @@ type tv struct {
 }
 
 type Env struct {
-	ex    *Exec
-	vars  map[string]tv
-	st    *State // current ("post") state
-	old   *State // state for old(...)
-	pkg   *types.Package
-	frame *frame // for invariants: resolve locals
-	depth int
+	ex        *Exec
+	vars      map[string]tv
+	st        *State // current ("post") state
+	old       *State // state for old(...)
+	pkg       *types.Package
+	frame     *frame // for invariants: resolve locals
+	depth     int
+	siteBlock *ssa.BasicBlock
+	siteInstr ssa.Instruction
 }
 
 func (env *Env) with(st *State) *Env {
@@ -188,6 +190,47 @@ func (env *Env) trans(e ast.Expr) (tv, error) {
 	return tv{}, env.errf(e, "unsupported spec expression (%T)", e)
 }
 
+// localAtSite resolves a source-level local variable name at the current site through DebugRefs:
+// the nearest reference to a variable of that name in this block (before the site) or in a dominating block.
+func (env *Env) localAtSite(name string) (ssa.Value, bool, bool) {
+	f := env.frame
+	b := env.siteBlock
+	first := true
+	for b != nil {
+		instrs := b.Instrs
+		end := len(instrs)
+		if first {
+			for i, ins := range instrs {
+				if ins == env.siteInstr {
+					end = i
+				}
+			}
+			first = false
+		}
+		for i := end - 1; i >= 0; i-- {
+			if dr, ok := instrs[i].(*ssa.DebugRef); ok {
+				if obj := dr.Object(); obj != nil && obj.Name() == name {
+					if _, isVar := obj.(*types.Var); isVar {
+						if _, have := f.vals[dr.X]; have || isConstLike(dr.X) {
+							return dr.X, dr.IsAddr, true
+						}
+					}
+				}
+			}
+		}
+		b = b.Idom()
+	}
+	return nil, false, false
+}
+
+func isConstLike(v ssa.Value) bool {
+	switch v.(type) {
+	case *ssa.Const, *ssa.Global, *ssa.Function, *ssa.Parameter, *ssa.FreeVar:
+		return true
+	}
+	return false
+}
+
 func (env *Env) lookupLocal(name string) ssa.Value {
 	f := env.frame
 	if f == nil {
@@ -235,6 +278,16 @@ func (env *Env) ident(x *ast.Ident) (tv, error) {
 			return tv{}, err
 		}
 		return tv{t: ex.get(env.st, "G:"+g.Name, sort), typ: typ}, nil
+	}
+	if env.frame != nil && env.siteBlock != nil {
+		if v, isAddr, ok := env.localAtSite(x.Name); ok {
+			f := env.frame
+			if isAddr {
+				l := f.locOf(v)
+				return tv{t: ex.load(env.st, l), typ: l.typ}, nil
+			}
+			return tv{t: f.val(v), typ: v.Type()}, nil
+		}
 	}
 	if lv := env.lookupLocal(x.Name); lv != nil {
 		f := env.frame
@@ -733,8 +786,28 @@ func (env *Env) call(x *ast.CallExpr) (tv, error) {
 		}
 		ex.regComp(compAlloc, SInt)
 		return tv{t: app(SBool, ">=", v.t, ex.get(env.old, compAlloc, SInt))}, nil
+	case "str":
+		// str(b): the string spelled by a byte slice
+		v, err := argv(0)
+		if err != nil {
+			return tv{}, err
+		}
+		if v.t.Sort != SSlice {
+			return tv{}, env.errf(x, "str of non-slice")
+		}
+		el := v.typ.Underlying().(*types.Slice).Elem()
+		arr := ex.get(env.st, compElem(el), arraySort(SInt, arraySort(SInt, SInt)))
+		fn := sc.declareFun("strOfBytes", []string{arraySort(SInt, SInt), SInt, SInt}, SStr)
+		return tv{t: app(SStr, fn, sel(arr, app(SInt, "sarr", v.t)), app(SInt, "soff", v.t), app(SInt, "slen", v.t)), typ: types.Typ[types.String]}, nil
 	case "clock":
 		return tv{t: ex.get(env.st, "G:clock", SInt)}, nil
+	case "nanos":
+		v, err := argv(0)
+		if err != nil {
+			return tv{}, err
+		}
+		fn := sc.declareFun("time.nanos", []string{v.t.Sort}, SInt)
+		return tv{t: app(SInt, fn, v.t), typ: types.Typ[types.Int64]}, nil
 	case "prefix":
 		a, err := argv(0)
 		if err != nil {
